@@ -1288,9 +1288,11 @@ class CodeGenerator(NodeVisitor):
         self.enter_frame(loop_frame)
 
         self.writeline("_loop_vars = {}")
-        self.blockvisit(node.body, loop_frame)
+        # clear the else indicator on entry to the body: a ``continue`` or
+        # ``break`` in the body must not skip it
         if node.else_:
             self.writeline(f"{iteration_indicator} = 0")
+        self.blockvisit(node.body, loop_frame)
         self.outdent()
         self.leave_frame(
             loop_frame, with_python_scope=node.recursive and not node.else_
